@@ -218,7 +218,7 @@ def tlc(module, cfg=None, workers=8, simulate=None, depth=None, env=None, timeou
         if "Finished in" not in r.out or "Error:" in r.out:
             r.error = "\n".join(l for l in r.out.splitlines() if "rror" in l)[:2000] or f"rc={rc}"
     if coverage:
-        for m in re.finditer(r"<(\w+) line \d+, col \d+ to line \d+, col \d+ of module \w+>: (\d+):(\d+)", r.out):
+        for m in re.finditer(r"<(\w+) line \d+, col \d+ to line \d+, col \d+ of module \w+(?: \([^)]*\))?>: (\d+):(\d+)", r.out):
             nm, a, b = m.group(1), int(m.group(2)), int(m.group(3))
             pa, pb = r.coverage.get(nm, (0, 0))
             r.coverage[nm] = (pa + a, pb + b)
